@@ -8,6 +8,8 @@ import Gnet.Spec.ReactorSpec
 import Gnet.Proofs.ReactorBytes
 import Gnet.Spec.ReactorExample
 import Gnet.Proofs.ReactorRuns
+import Gnet.Props.C09
+import Gnet.Props.C10
 namespace Gnet.Props.C01
 open Gnet.Reactor
 
@@ -33,6 +35,17 @@ example : (Example.after 2).bind Example.bytesView = some [[10, 11, 12, 13], [10
 
 example (s1 : RState) (h : acceptRound Example.s0 Example.round1 = .ok s1) : InvIn s1 :=
   (inbound_integrity _ _ _ (inbound_init _).2.2 h (inbound_init _).1 (inbound_init _).2.1).1
+
+/-! ### What the abstraction of the reactor model rests on
+
+The reactor model keeps the inbound buffer of a connection as a list of bytes. In the code it is an `elastic.RingBuffer`
+over a `ring.Buffer`; that those behave as that list under every operation sequence is the refinement of C10 / C09,
+restated here because the theorems above are about the code only together with it. The check of C01 therefore also
+runs the correspondence of the two buffer models with the real buffers. -/
+
+theorem inbound_buffer_is_fifo : type_of% @Gnet.Props.C10.ering_run_refines := @Gnet.Props.C10.ering_run_refines
+
+theorem ring_is_fifo : type_of% @Gnet.Props.C09.ring_run_refines := @Gnet.Props.C09.ring_run_refines
 
 end Gnet.Props.C01
 
